@@ -119,6 +119,12 @@ def run_group(gs):
         if y0 is None:
             y0 = np.zeros(prob.num_cons)
         y0 = np.asarray(y0, dtype=float)
+        if rs.get("y0scale") is not None:
+            y0 = np.full(prob.num_cons, float(rs["y0scale"])) * np.where(np.arange(prob.num_cons) % 2 == 0, 1.0, -1.0)
+        if rs.get("x0_shift"):
+            x0 = np.clip(x0 + float(rs["x0_shift"]), prob.var_lb, prob.var_ub)
+        if rs.get("x0_on_bounds"):
+            x0 = np.where(np.isfinite(prob.var_lb), prob.var_lb, np.where(np.isfinite(prob.var_ub), prob.var_ub, x0))
         pk = dict(rs.get("params", {}))
         level = getattr(logging, rs.get("loglevel", "WARNING"))
         logger.setLevel(level)
@@ -139,6 +145,11 @@ def run_group(gs):
                 if scaling is not None:
                     from pygradflow.scale import Scaling
 
+                    if scaling[0] == "random":
+                        srng = np.random.default_rng(scaling[1])
+                        w = int(scaling[2])
+                        scaling = (srng.integers(-w, w + 1, size=prob.num_vars), srng.integers(-w, w + 1, size=prob.num_cons),
+                                   int(srng.integers(-w, w + 1)))
                     vw, cw, ow = scaling
                     sc = Scaling(np.array(vw, dtype=int), np.array(cw, dtype=int), int(ow))
                     rp.own("var_weights", sc.var_weights)
@@ -175,6 +186,9 @@ def run_group(gs):
         finally:
             logger.setLevel(logging.WARNING)
         info["runs"].append({"run": run, "status": status, "n": int(prob.num_vars), "m": int(prob.num_cons)})
+    info["ntrials"] = sum(1 for e in rec.events if e["ev"] == "TrialEnd")
+    info["naccept"] = sum(1 for e in rec.events if e["ev"] == "TrialEnd" and e["kind"] == "accept")
+    info["nfail"] = sum(1 for e in rec.events if e["ev"] == "TrialEnd" and e["kind"] == "fail")
     evs = project.project(rec)
     return {"events": evs, "info": info, "spec": gs}
 
@@ -205,6 +219,7 @@ class BatchResult:
         self.wall_tlc = 0.0
         self.event_counts = {}
         self.samples = []
+        self.infos = []
 
     def by_tag(self, tag):
         return [n for n in self.notes if n["tag"] == tag]
@@ -266,6 +281,7 @@ def validate_groups(results, keep_samples=2, chunk_events=60000):
                     br.statuses[st] = br.statuses.get(st, 0) + 1
                 for e in r["events"]:
                     br.event_counts[e["ev"]] = br.event_counts.get(e["ev"], 0) + 1
+                br.infos.append(r["info"])
                 if len(br.samples) < keep_samples:
                     br.samples.append({"spec": _jsonable(r["spec"]), "info": r["info"],
                                        "events_head": [_slim(e) for e in r["events"][:12]]})
